@@ -1,5 +1,6 @@
 #![allow(dead_code)]
 mod checks;
+mod cli;
 mod dom;
 mod eval;
 mod generators;
@@ -7,6 +8,7 @@ mod ir;
 mod ops;
 mod runner;
 mod safe_print;
+mod tff;
 
 use runner::Tier;
 use std::path::PathBuf;
